@@ -142,7 +142,16 @@ def one_case(args):
     beh = G.gen_behaviour(rng)
     sibling = d + '_out'
     shutil.rmtree(sibling, ignore_errors=True)
-    if beh['files'] and rng.random() < 0.25:
+    corpus = i < 2
+    if corpus:
+        # corpus (found under VERIF_SEED=6/7): an output file that shares its base name with the stderr / stdout
+        # references, written in two directories
+        nm = ['stderr', 'stdout'][i]
+        beh['files'] = {nm: (True, b'one\nline\n'), 'out.txt': (True, b'alpha\n')}
+        os.makedirs(sibling)
+        beh['sibling'] = [nm]
+        beh['both'] = [nm]
+    elif beh['files'] and rng.random() < 0.25:
         # some outputs go to a sibling directory whose name extends the working directory's name
         os.makedirs(sibling)
         beh['sibling'] = sorted(beh['files'])[:rng.randint(1, len(beh['files']))]
@@ -162,7 +171,7 @@ def one_case(args):
     flags = []
     if beh['code'] != 0:
         flags.append(rng.choice(['-Z', '--non-zero-exit']))
-    it = rng.choice([1, 2, 2, 2, 3])
+    it = 2 if corpus else rng.choice([1, 2, 2, 2, 3])
     if it != 2 or rng.random() < 0.3:
         flags += ['-n', str(it)]
     check_stdout = rng.random() > 0.15
